@@ -668,8 +668,8 @@ func (c *EvalCtx) call(v *ECall) SV {
 	case "cap":
 		return goInt(sliceCap(argT(0)))
 	case "forall", "exists":
-		if len(v.Args) != 3 && len(v.Args) != 2 {
-			sfail("%s(var, guard, body)", v.Fun)
+		if len(v.Args) < 2 {
+			sfail("%s(var, guard, body[, trigger terms...])", v.Fun)
 		}
 		id, ok := v.Args[0].(*EIdent)
 		sort := SInt
@@ -690,7 +690,7 @@ func (c *EvalCtx) call(v *ECall) SV {
 		n := c.with(name, SV{t: bv, typ: typ})
 		n.depth = c.depth + 1
 		var body T
-		if len(v.Args) == 3 {
+		if len(v.Args) >= 3 {
 			g := n.boolOf(v.Args[1])
 			b := n.boolOf(v.Args[2])
 			if v.Fun == "forall" {
@@ -700,6 +700,15 @@ func (c *EvalCtx) call(v *ECall) SV {
 			}
 		} else {
 			body = n.boolOf(v.Args[1])
+		}
+		if len(v.Args) > 3 && v.Fun == "forall" {
+			// explicit trigger terms: each one is an alternative pattern
+			var pats []string
+			for _, te := range v.Args[3:] {
+				tv := n.eval(te)
+				pats = append(pats, ":pattern ("+n.value(tv).S+")")
+			}
+			return SV{t: T{fmt.Sprintf("(forall ((%s %s)) (! %s %s))", bv.S, sort, body.S, strings.Join(pats, " ")), SBool}, typ: boolT}
 		}
 		if pats := autoPatterns(body.S, bv.S); useAutoPatterns && pats != "" && v.Fun == "forall" {
 			return SV{t: T{fmt.Sprintf("(forall ((%s %s)) (! %s %s))", bv.S, sort, body.S, pats), SBool}, typ: boolT}
@@ -906,6 +915,8 @@ func (c *EvalCtx) applyGhost(g *GhostFunc, v *ECall) SV {
 		n := *c
 		n.env = map[string]SV{}
 		n.lets = nil
+		n.locals = nil // the body of a ghost function sees its parameters only, never the locals of the verified function
+		n.bound = nil
 		n.pkg = gpkg
 		n.sf = gsf
 		n.depth = c.depth + 1
